@@ -16,9 +16,10 @@ mis-delivery'):
  R7 drop guard: OrphanhoodNotifier::disable() is reachable only after the awaited response arrived.
 Not decided: interleavings as such; the bit arithmetic of StreamIdSet (allocate sets the bit free clears); server ordering.
 """
+import re
 from ..inline import inline_view
 from ..mir import AnchorLost
-from ..util import must_pass, df_of, fn_short, in_set, operand_path, path_last, backward_slice, field_writers, callers_keys, guard_across_yield, switch_on, switch_edges, yields
+from ..util import new_async_helpers, must_pass, df_of, fn_short, in_set, operand_path, path_last, backward_slice, field_writers, callers_keys, guard_across_yield, switch_on, switch_edges, yields
 
 C = "scylla::network::connection::"
 
@@ -267,9 +268,60 @@ def int_consts_of(b):
     return out
 
 
+def r9(ctx, facts):
+    r = ctx.rule("R9", "the frame reader consumes exactly one frame: 9 header bytes, then at most `length` body bytes", floor=3)
+    b = facts.one(r"^scylla_cql::frame::read_response_frame::\{closure#0\}$")
+    outer = b
+    bodies = [(b, None)] + new_async_helpers(facts, b)
+    if not any(c for bd, _ in bodies for bb, c in bd.calls() if bb in bd.live_blocks and (c.decl or "").startswith("tokio::io::util::async_read_ext::AsyncReadExt::")):
+        raise AnchorLost("read_response_frame: no AsyncReadExt call found")
+    n_exact = n_buf = 0
+
+    def from_length(bd, created_with, operand, **kw):
+        """the operand derives from the header's length field (through the helper's arguments if bd is a helper)"""
+        locs, lc, _ = backward_slice(bd, operand, **kw)
+        if any((y.decl or "").endswith("Buf::get_u32") for y in lc):
+            return True, lc
+        if created_with is not None and 1 in locs:
+            return any(any((y.decl or "").endswith("Buf::get_u32") for y in backward_slice(outer, a)[1]) for a in created_with if a[0] in ("c", "m")), lc
+        return False, lc
+    work = []
+    for b, created_with in bodies:
+        work += [(b, created_with, c) for bb, c in b.calls() if bb in b.live_blocks and (c.decl or "").startswith("tokio::io::util::async_read_ext::AsyncReadExt::")]
+    for b, created_with, c in work:
+        m = c.decl.split("::")[-1]
+        if m == "read_exact":
+            # reads exactly the length of the slice: a fixed-size array (the header) or a buffer sized from the header's length
+            locs, calls, _ = backward_slice(b, c.args[1], data_only=True)
+            arr = [l for l in locs if re.match(r"^\[u8; [A-Za-z_0-9:]+\]$", b.local_ty(l))]
+            sized = from_length(b, created_with, c.args[1])[0]
+            n_exact += 1
+            r.instance("read_exact-into-bounded-buffer", bool(arr) or sized,
+                       "read_exact must fill a fixed-size header array or a buffer sized by the header's length field", c.span)
+        elif m == "read_buf":
+            n_buf += 1
+            ty = b.local_ty(c.args[1][1][0]) if c.args[1][0] in ("c", "m") else ""
+            limited = "bytes::buf::limit::Limit<" in ty
+            ok = False
+            if limited:
+                locs, calls, _ = backward_slice(b, c.args[1], data_only=True, pointer_only=True)
+                lim = [x for x in calls if (x.decl or "") == "bytes::buf::buf_mut::BufMut::limit"]
+                ok = bool(lim)
+                for x in lim:
+                    fl, lc = from_length(b, created_with, x.args[1])
+                    ok = ok and fl and not any((y.decl or "").split("::")[-1] in ("max", "saturating_add", "checked_add", "next_power_of_two") for y in lc)
+            r.instance("body-read-is-limited-to-length", ok,
+                       "read_buf appends whatever the transport has ready, up to the buffer's spare capacity: the body buffer must be `…limit(length)` with `length` from the "
+                       "header's get_u32, or bytes of the next frame are swallowed and the next response is attributed by garbage (buffer type here: %s)" % ty, c.span)
+        else:
+            r.instance("reader-method:" + m, False, "read_response_frame uses AsyncReadExt::%s, which does not stop at the frame boundary by construction" % m, c.span)
+    b = outer
+    r.instance("header-then-body", n_exact + n_buf >= 2, "expected a header read and a body read (%d/%d)" % (n_exact, n_buf), b.span, nontrivial=False)
+
+
 def check(ctx):
     facts = inline_view(ctx.facts("default"))
-    for fn in (r1_r2, r3_r4, r5, r6, r7, r8):
+    for fn in (r1_r2, r3_r4, r5, r6, r7, r8, r9):
         try:
             fn(ctx, facts)
         except AnchorLost as ex:
